@@ -9,7 +9,7 @@ Proof.
   destruct om as [m|]; [|done].
   destruct (msgs s !! m) as [M|] eqn:HM; [|done].
   destruct (i_sentNames Ii !! m_name M) eqn:Hnm; [done|].
-  destruct (_ && _); [done|].
+  destruct (parent_bus_too_big _ _ _); [done|].
   cbn in Hok. specialize (Hok M HM).
   assert (m_sender M = None) as Hsnd.
   { destruct Hok as [?|Hs]; [done|].
